@@ -54,7 +54,7 @@ fn finish(r: &mut Report, sig: &'static str, desc: &dyn Fn() -> String, panicked
 fn consumer_history<const N: usize>(r: &mut Report, ops: &[Op], end: End) {
     let _ = take_log();
     let desc = || format!("ArrayConsumer<Tok,{}> ops={:?} end={:?}", N, ops, end);
-    if std::env::var_os("KV_TRACE").is_some() {
+    if tracing() {
         eprintln!("TRACE {}", desc());
     }
     let arr: [Tok; N] = core::array::from_fn(|i| Tok::new(i as u32));
